@@ -378,7 +378,9 @@ def run(tier: str, seed: int) -> dict:
     evaluations = 0
     n_classes = 0
     samples = []
-    for out in c01.map_cases(worker, [(repr(s), tier) for s in starts]):
+    for out in c01.map_cases(
+        worker, [(repr(s), tier) for s in starts], chunksize=1
+    ):
         fired.update(out["fired"])
         n_classes += out["classes"]
         for key, kind, st, nstats, violation, desc in out["results"]:
